@@ -26,6 +26,7 @@ pub struct Typer
 	functions: std::collections::HashMap<u32, Function>,
 	structures: std::collections::HashMap<u32, Structure>,
 	calculated_named_lengths: std::collections::HashMap<u32, usize>,
+	opaque_structures: std::collections::HashSet<u32>,
 	contextual_type: Option<Poisonable<ValueType>>,
 }
 
@@ -223,6 +224,14 @@ impl Typer
 			}
 			None => None,
 		}
+	}
+
+	/// Opaque structures do not have a size that is known at compile time,
+	/// hence they can only be used behind a pointer or a view.
+	fn is_opaque(&self, value_type: &ValueType) -> bool
+	{
+		matches!(value_type, ValueType::Struct { identifier }
+			if self.opaque_structures.contains(&identifier.resolution_id))
 	}
 
 	fn retrieve_named_length(&mut self, name: Identifier) -> Poisonable<usize>
@@ -643,11 +652,15 @@ fn forward_declare_structure(declaration: &Declaration, typer: &mut Typer)
 			name,
 			members: _,
 			structural_type,
-			flags: _,
+			flags,
 			depth: _,
 			location_of_declaration: _,
 		} =>
 		{
+			if flags.contains(DeclarationFlag::OpaqueStruct)
+			{
+				typer.opaque_structures.insert(name.resolution_id);
+			}
 			typer.forward_declare_symbol(name, structural_type.clone());
 		}
 		Declaration::Import { .. } => (),
@@ -679,7 +692,7 @@ fn declare(declaration: Declaration, typer: &mut Typer) -> Declaration
 					&location_of_declaration,
 				)
 				{
-					Ok(vt) if !vt.can_be_constant() =>
+					Ok(vt) if !vt.can_be_constant() || typer.is_opaque(&vt) =>
 					{
 						assert!(vt.is_wellformed(), "{vt:?}");
 						Err(Poison::Error(Error::IllegalConstantType {
@@ -1074,7 +1087,10 @@ impl Member
 				{
 					Err(_) => true,
 					Ok(vt) if in_word => vt.can_be_word_member(),
-					Ok(vt) if in_struct => vt.can_be_struct_member(),
+					Ok(vt) if in_struct =>
+					{
+						vt.can_be_struct_member() && !typer.is_opaque(vt)
+					}
 					Ok(_) => true,
 				};
 				match value_type
@@ -1245,6 +1261,8 @@ impl Analyzable for Statement
 			} =>
 			{
 				let declared_type = declared_type.analyze(typer);
+				let declared_type =
+					check_variable_type(declared_type, &name, typer);
 				let recoverable_error =
 					typer.put_symbol(&name, Some(declared_type.clone()));
 				let declared_type =
@@ -1345,6 +1363,8 @@ impl Analyzable for Statement
 			} =>
 			{
 				let declared_type = declared_type.analyze(typer);
+				let declared_type =
+					check_variable_type(declared_type, &name, typer);
 				let recoverable_error =
 					typer.put_symbol(&name, Some(declared_type.clone()));
 				let value_type = match recoverable_error
@@ -1937,7 +1957,9 @@ impl Analyzable for Expression
 				location,
 			} => match analyze_type(queried_type, typer)
 			{
-				Ok(queried_type) if queried_type.can_be_sized() =>
+				Ok(queried_type)
+					if queried_type.can_be_sized()
+						&& !typer.is_opaque(&queried_type) =>
 				{
 					Expression::SizeOf {
 						queried_type,
@@ -2024,6 +2046,14 @@ fn analyze_structural(
 {
 	match structural_type.analyze(typer)
 	{
+		Ok(structural_type) if typer.is_opaque(&structural_type) =>
+		{
+			// An opaque structure cannot be instantiated.
+			Expression::Poison(Poison::Error(Error::IllegalType {
+				value_type: structural_type,
+				location,
+			}))
+		}
 		Ok(structural_type) =>
 		{
 			let structure_identifier = match &structural_type
@@ -3050,6 +3080,25 @@ fn build_type_of_ref1(
 	full_type
 }
 
+fn check_variable_type(
+	declared_type: Poisonable<ValueType>,
+	name: &Identifier,
+	typer: &Typer,
+) -> Poisonable<ValueType>
+{
+	match declared_type
+	{
+		Ok(value_type) if typer.is_opaque(&value_type) =>
+		{
+			Err(Poison::Error(Error::IllegalVariableType {
+				value_type,
+				location: name.location.clone(),
+			}))
+		}
+		_ => declared_type,
+	}
+}
+
 fn infer_for_declaration(
 	value_type: Option<Poisonable<ValueType>>,
 	identifier: &Identifier,
@@ -3121,6 +3170,20 @@ fn analyze_type(
 	typer: &mut Typer,
 ) -> Poisonable<ValueType>
 {
+	// The element type of an array must have a size that is known at compile
+	// time, which an opaque structure does not.
+	if let Some(ValueType::UnresolvedStructOrWord {
+		identifier: Some(identifier),
+	}) = value_type.get_element_type()
+	{
+		if typer.opaque_structures.contains(&identifier.resolution_id)
+		{
+			return Err(Poison::Error(Error::IllegalType {
+				value_type,
+				location: identifier.location,
+			}));
+		}
+	}
 	match value_type
 	{
 		ValueType::UnresolvedStructOrWord {
